@@ -43,6 +43,12 @@ class CBFSystem(System):
             for s in strats:
                 cfgs.append(dict(n=n, p=p, strat=s, depth=depth, seed=seed, m=m, k=k, nkeys=3 if tier == "quick" else 4,
                                  cost=4000))
+        # scale-up: 131 counters with keys touching every region of the array; amounts at the byte boundaries of a counter
+        m, k = _geom(21, 0.05)
+        cfgs.append(dict(n=21, p=0.05, strat="cover", depth=4 if tier == "quick" else 5, seed=seed, m=m, k=k, nkeys=4, cost=4000))
+        m, k = _geom(3, 0.1)
+        cfgs.append(dict(n=3, p=0.1, strat="table", depth=3 if tier == "quick" else 4, seed=seed, m=m, k=k, nkeys=2,
+                         amounts=[255, 256, 65536, 1 << 24], cost=4000))
         if prop == "C06":
             cfgs = [c for c in cfgs if c["strat"] == "fnv"]  # the C reference implements the documented FNV-1a rule
             # histories that drive cells to the limit and back: the C writer replays them with the saturation rules
@@ -56,6 +62,9 @@ class CBFSystem(System):
         return cfgs
 
     def _alpha(self, cfg):
+        if cfg["strat"] == "cover":
+            keys, hf = K.corridor_alphabet("cover", cfg["m"], cfg["k"], cfg["seed"], 16)
+            return [keys[0], keys[5], keys[10], keys[15]][: cfg["nkeys"]], hf, ["every_region"]
         keys, hf, cov = K.alphabet(cfg["strat"], cfg["m"], cfg["k"], cfg["seed"])
         if cfg["strat"] == "table":
             # a (cells 0..k-1), b (shares cell 0 / last cell), c (all positions coincide), bytes key
@@ -78,7 +87,7 @@ class CBFSystem(System):
     def events(self, cfg, st):
         keys, _, _ = self._alpha(cfg)
         evs = []
-        amounts = (1, 2**32 - 2, 2**32 - 1) if cfg.get("sat") else (1, 2, 3)
+        amounts = (1, 2**32 - 2, 2**32 - 1) if cfg.get("sat") else tuple(cfg.get("amounts", (1, 2, 3)))
         for i in range(len(keys)):
             for n in amounts:
                 evs.append(("add", i, n))
@@ -206,7 +215,7 @@ class CBFSystem(System):
             base = call(bytes, f)
             g = self.clone(post).impl
             for i, key in enumerate(keys):
-                for n in (1, 2, 3):
+                for n in tuple(cfg.get("amounts", (1, 2, 3)))[:3]:
                     a = call(g.add, key, n)
                     r = call(g.remove, key, n)
                     now = call(bytes, g)
